@@ -348,8 +348,12 @@ pub fn emit_module(k: usize, spec: &AppSpec) -> String {
             }
             CompKind::ErrHandler { err, default } => {
                 let d = if *default { ", default = true" } else { "" };
-                let style = err_handler_style(idx);
+                let style = if *err == crate::spec::FALLBACK_ERR { 3 } else { err_handler_style(idx) };
                 match style {
+                    // the fallback handler: any error, as `pavex::Error`
+                    3 => {
+                        let _ = writeln!(s, "#[pavex::error_handler(id = \"M{k}_X{idx}\"{d})]\npub {asy}fn x{idx}(#[px(error_ref)] e: &pavex::Error, {sig}) -> Response {{");
+                    }
                     // a method of the error type: `&self` is the error
                     1 => {
                         let _ = writeln!(s, "#[pavex::methods]\nimpl E{err} {{\n#[pavex::error_handler(id = \"M{k}_X{idx}\"{d})]\npub {asy}fn x{idx}({}&self, {sig}) -> Response {{\n    let e = self;", if sig.is_empty() { "" } else { "#[px(error_ref)] " });
@@ -368,7 +372,7 @@ pub fn emit_module(k: usize, spec: &AppSpec) -> String {
                     "    Response::new(pavex::http::StatusCode::from_u16({}).unwrap()).set_typed_body(\"eh:{name}\".to_string())\n}}\n",
                     430 + (*err as u16 % 20)
                 );
-                if style != 0 {
+                if style == 1 || style == 2 {
                     s.push_str("}\n\n");
                 }
             }
@@ -403,7 +407,7 @@ pub fn emit_module(k: usize, spec: &AppSpec) -> String {
         }
     }
     for (idx, c) in spec.comps.iter().enumerate() {
-        if matches!(c.kind, CompKind::ErrHandler { .. }) && err_handler_style(idx) == 2 {
+        if matches!(c.kind, CompKind::ErrHandler { err, .. } if err != crate::spec::FALLBACK_ERR) && err_handler_style(idx) == 2 {
             let _ = writeln!(s, "    bp0.constructor(M{k}_H{idx});");
         }
     }
